@@ -1,6 +1,7 @@
 /-
   C13 — deep_equal is canonical-form equivalence; its variants relax it as documented.
-  Property theorems only (helper lemmas: `XotModel/Lemmas/Compare*.lean`).
+  Property theorems only (helper lemmas and the specification-side definitions `stripCommentsPis`,
+  `Canon.relPos`, `AttrPerm`, `DeclEdit`, `attrViewsNodup`, `canonStr`: `XotModel/Lemmas/Compare*.lean`).
 
   `Tree.valid` is the structural hypothesis: at every node the children come as namespaces,
   attributes, normal nodes; attribute names are unique per node; attribute / namespace nodes
@@ -11,6 +12,12 @@ import XotModel.Lemmas.CompareVariants
 import XotModel.Lemmas.CompareRel
 import XotModel.Lemmas.CompareShallow
 import XotModel.Lemmas.CompareText
+import XotModel.Lemmas.CompareStrip
+import XotModel.Lemmas.CompareSorted
+import XotModel.Lemmas.CompareDeep
+import XotModel.Lemmas.CompareTextContent
+import XotModel.Lemmas.CompareAllTrees
+import XotModel.Lemmas.CompareNames
 
 namespace XotModel.Props
 open XotModel
@@ -244,5 +251,238 @@ example : deepEqual (.node (.attribute 3 ['v']) []) (.node (.attribute 4 ['w']) 
 example : stringValue {} (.node (.element 2) [.node (.attribute 3 ['v']) [], .node (.text ['x']) [],
     .node (.element 3) [.node (.text ['y']) []], .node (.comment ['c']) []]) = ['x', 'y'] :=
   (C13_string_value {} _ (by decide) (by decide) (Or.inr ⟨2, rfl⟩)).trans rfl
+
+/-! ### deep_equal_xpath = the plain comparison of the trees without comments and PIs -/
+
+/-- Deleting every comment and PI (with whatever hangs under it) from a structurally valid tree
+    gives a structurally valid tree. -/
+theorem C13_stripped_valid (a : Tree) (va : a.valid = true) : a.stripCommentsPis.valid = true :=
+  valid_stripCommentsPis a va
+
+/-- `deep_equal_xpath(a, b, cmp)` on element/element or document/document IS
+    `advanced_deep_equal(strip a, strip b, |_| true, cmp)`: the unfiltered comparison, with the
+    supplied text comparison, of the trees with every comment and PI below the compared nodes
+    deleted.  Nothing is merged: where a comment separated two text nodes the stripped tree has two
+    adjacent text nodes, and they are compared as two nodes (see `C13_xpath_no_text_merge`).
+    Hypotheses: children well ordered, attribute names unique, comments / PIs / attribute /
+    namespace nodes are leaves (`validRootFor xpathKeep`); no document node below the root. -/
+theorem C13_xpath_stripped_cmp (cmp : TextCmp) (a b : Tree) (va : a.validRootFor xpathKeep = true)
+    (vb : b.validRootFor xpathKeep = true) (da : a.noInnerDocument = true) (db : b.noInnerDocument = true)
+    (h : (a.value.isElement = true ∧ b.value.isElement = true) ∨ (a.value = .document ∧ b.value = .document)) :
+    deepEqualXpath cmp a b = advancedDeepEqual (fun _ => true) cmp a.stripCommentsPis b.stripCommentsPis := by
+  have : deepEqualXpath cmp a b = advancedDeepEqual xpathFilter cmp a b := by
+    rcases h with ⟨ea, eb⟩ | ⟨da', db'⟩
+    · cases a with | node v ks => cases b with | node w js =>
+        cases v <;> cases w <;> simp_all [deepEqualXpath, Tree.value, Value.isElement]
+    · simp [deepEqualXpath, da', db']
+  rw [this, strip_eq_discard a da, strip_eq_discard b db]
+  exact xpath_eq_advanced_discard cmp a b va vb h
+
+/-- With `==` as the text comparison, on structurally valid trees whose text / comment / PI nodes
+    are leaves and that hold no document node below the root:
+    `deep_equal_xpath(a, b, ==) = deep_equal(strip a, strip b)`, "the same relation after
+    discarding comments and PIs below the compared nodes" (and `strip a`, `strip b` are valid). -/
+theorem C13_xpath_stripped (a b : Tree) (va : a.valid = true) (vb : b.valid = true)
+    (la : a.contentLeaves = true) (lb : b.contentLeaves = true)
+    (da : a.noInnerDocument = true) (db : b.noInnerDocument = true)
+    (h : (a.value.isElement = true ∧ b.value.isElement = true) ∨ (a.value = .document ∧ b.value = .document)) :
+    deepEqualXpath strEq a b = deepEqual a.stripCommentsPis b.stripCommentsPis :=
+  C13_xpath_stripped_cmp strEq a b (validRootFor_xpathKeep_of_valid a va la da)
+    (validRootFor_xpathKeep_of_valid b vb lb db) da db h
+
+/-- "Discarding" deletes nodes and merges nothing.  `<e>x<!--c-->y</e>` against `<e>xy</e>`:
+    `deep_equal_xpath` is false (the stripped tree has the two text children `x`, `y`), although
+    the string values agree and although removing the comment through `Xot::remove` (which
+    consolidates adjacent text) yields a tree `deep_equal` to `<e>xy</e>`.  Observed on /repo
+    (same answers).  This is XPath F&O 3.1 fn:deep-equal ("the presence of a comment … if it
+    causes a text node to be split into two text nodes, may affect the result"). -/
+theorem C13_xpath_no_text_merge :
+    let a := Tree.node (.element 2) [.node (.text ['x']) [], .node (.comment ['c']) [], .node (.text ['y']) []]
+    let b := Tree.node (.element 2) [.node (.text ['x', 'y']) []]
+    deepEqualXpath strEq a b = false ∧
+    a.stripCommentsPis = .node (.element 2) [.node (.text ['x']) [], .node (.text ['y']) []] ∧
+    deepEqual a.stripCommentsPis b = false ∧ stringValue {} a = stringValue {} b := by
+  intro a b
+  exact ⟨by decide, rfl, by decide, by decide⟩
+
+/-- `C13_xpath_stripped`: hypotheses satisfiable, both outcomes occur. -/
+example : deepEqualXpath strEq
+    (.node (.element 2) [.node (.attribute 3 ['v']) [], .node (.comment ['c']) [], .node (.text ['x']) []])
+    (.node (.element 2) [.node (.attribute 3 ['v']) [], .node (.text ['x']) [], .node (.pi 4 none) []]) = true := by
+  rw [C13_xpath_stripped _ _ (by decide) (by decide) (by decide) (by decide) (by decide) (by decide) (Or.inl ⟨rfl, rfl⟩)]
+  decide
+
+example : (Tree.node (.element 2) [.node (.attribute 3 ['v']) [], .node (.comment ['c']) [], .node (.text ['x']) []]
+    ).stripCommentsPis.valid = true :=
+  C13_stripped_valid _ (by decide)
+
+/-! ### The canonical form is a sorted normal form -/
+
+/-- In the canonical form of a valid tree every element's attribute list is strictly sorted by
+    name (`Canon.sorted`), and on such forms the finite-map relation `Canon.rel` (attribute maps:
+    same size + lookup) IS the plain simultaneous walk `Canon.relPos` comparing the attribute lists
+    position by position; so is `advanced_deep_equal` without filter, for every comparison. -/
+theorem C13_canon_sorted (cmp : TextCmp) (a b : Tree) (va : a.valid = true) (vb : b.valid = true) :
+    (canon a).sorted ∧ Canon.rel cmp (canon a) (canon b) = Canon.relPos cmp (canon a) (canon b) ∧
+    advancedDeepEqual (fun _ => true) cmp a b = Canon.relPos cmp (canon a) (canon b) := by
+  have h := Canon.rel_eq_relPos cmp _ _ (canon_sorted a va) (canon_sorted b vb)
+  exact ⟨canon_sorted a va, h, (C13_advanced_all cmp a b va vb).trans h⟩
+
+/-- With `==` the position-wise walk is literally equality of the normal forms (all forms). -/
+theorem C13_canon_sorted_eq (x y : Canon) : Canon.relPos strEq x y = true ↔ x = y :=
+  Canon.relPos_strEq_iff x y
+
+/-- The underlying fact on attribute lists: strictly sorted by name ⇒ "same size and every entry
+    of the first found in the second with a related value" = position-wise comparison. -/
+theorem C13_attrs_sorted (cmp : TextCmp) (a b : List (Nat × Str)) (ha : strictSorted a) (hb : strictSorted b) :
+    attrsRel cmp a b = attrsRelPos cmp a b := attrsRel_eq_attrsRelPos cmp ha hb
+
+example : Canon.relPos strEq
+    (canon (.node (.element 6) [.node (.attribute 4 []) [], .node (.attribute 3 ['v']) []]))
+    (canon (.node (.element 6) [.node (.attribute 3 ['v']) [], .node (.attribute 4 []) []])) = true := by
+  rw [← (C13_canon_sorted strEq _ _ (by decide) (by decide)).2.2]; decide
+
+/-! ### Attribute order and declarations, at every depth -/
+
+/-- `a'` = `a` with the attribute children of any set of nodes (at any depth) permuted: still
+    structurally valid, same canonical form, `deep_equal`. -/
+theorem C13_ignores_attribute_order_deep (a a' : Tree) (h : AttrPerm a a') (va : a.valid = true) :
+    a'.valid = true ∧ canon a = canon a' ∧ deepEqual a a' = true :=
+  ⟨(h.spec va).2, (h.spec va).1, (C13_iff a a' va (h.spec va).2).mpr (h.spec va).1⟩
+
+/-- `a'` = `a` after namespace nodes were added, removed or replaced anywhere, any number of
+    times (`DeclEdit`): `deep_equal` (both trees valid: a declaration may not be put after an
+    attribute). -/
+theorem C13_ignores_declarations_deep (a a' : Tree) (h : DeclEdit a a') (va : a.valid = true)
+    (va' : a'.valid = true) : deepEqual a a' = true :=
+  C13_ignores_declarations a a' va va' h.stripNs_eq
+
+/-- Non-vacuity: attributes swapped one level down, a declaration added one level down. -/
+example : deepEqual
+    (.node .document [.node (.element 2) [.node (.attribute 3 ['v']) [], .node (.attribute 4 []) [], .node (.text ['x']) []]])
+    (.node .document [.node (.element 2) [.node (.attribute 4 []) [], .node (.attribute 3 ['v']) [], .node (.text ['x']) []]])
+    = true :=
+  (C13_ignores_attribute_order_deep _ _
+    (.node .document [] [] [] []
+      [.node (.element 2) [.node (.attribute 3 ['v']) [], .node (.attribute 4 []) [], .node (.text ['x']) []]]
+      [.node (.element 2) [.node (.attribute 4 []) [], .node (.attribute 3 ['v']) [], .node (.text ['x']) []]]
+      .nil (fun _ h => nomatch h) (.refl _)
+      (.cons (.node (.element 2) [] [] [.node (.attribute 3 ['v']) [], .node (.attribute 4 []) []]
+          [.node (.attribute 4 []) [], .node (.attribute 3 ['v']) []] [.node (.text ['x']) []] [.node (.text ['x']) []]
+          .nil (by decide) (.swap _ _ _) (AttrPermList.refl _)) .nil))
+    (by decide)).2.2
+
+example : deepEqual (.node .document [.node (.element 2) [.node (.text ['x']) []]])
+    (.node .document [.node (.element 2) [.node (.namespace 2 2) [], .node (.text ['x']) []]]) = true :=
+  C13_ignores_declarations_deep _ _
+    (.child .document [] [] _ _ (.add (.element 2) [] [.node (.text ['x']) []] (.node (.namespace 2 2) []) rfl))
+    (by decide) (by decide)
+
+/-! ### text_content, text_content_str -/
+
+/-- `text_content_str` (for any node whose children are well ordered): `Some("")` without
+    children, the text of an only child that is a text node, `None` otherwise; `text_content`
+    likewise but `None` without children. -/
+theorem C13_text_content (v : Value) (ks : List Tree) (ho : orderedKids ks = true) :
+    textContentStr (.node v ks) = (match (Tree.node v ks).normalKids with
+      | [] => some []
+      | [c] => c.textStr
+      | _ => none) ∧
+    textContent (.node v ks) = (match (Tree.node v ks).normalKids with
+      | [c] => c.textStr
+      | _ => none) :=
+  ⟨textContentStr_of_normalKids (normalKids_normal ho), textContent_of_normalKids (normalKids_normal ho)⟩
+
+/-- On the canonical form (valid tree, text / comment / PI nodes are leaves): `Some(s)` exactly
+    when there is no child and `s` is empty, or the only child is the text node `s`. -/
+theorem C13_text_content_canon (t : Tree) (hv : t.valid = true) (hl : t.contentLeaves = true) (s : Str) :
+    (textContentStr t = some s ↔ ((canon t).kids = [] ∧ s = []) ∨ (canon t).kids = [.node (.text s) []]) ∧
+    (textContent t = some s ↔ (canon t).kids = [.node (.text s) []]) :=
+  ⟨textContentStr_iff_canon t hv hl s, textContent_iff_canon t hv hl s⟩
+
+/-- Relation to `string_value`: when `text_content_str` of a document or element answers, it
+    answers the string value (the converse fails: `<a><b>x</b></a>` has string value `x`). -/
+theorem C13_text_content_string_value (env : Env) (t : Tree) (hv : t.valid = true) (hl : t.contentLeaves = true)
+    (h : t.value = .document ∨ ∃ n, t.value = .element n) (s : Str) (hs : textContentStr t = some s) :
+    stringValue env t = s := by
+  rw [C13_string_value env t hv hl h]
+  obtain ⟨v, ks⟩ := t
+  have hk := (textContentStr_iff_canon _ hv hl s).mp hs
+  simp only [canon, Canon.kids] at hk
+  have hval : cvalue v ks = .document ∨ ∃ n a, cvalue v ks = .element n a := by
+    rcases h with h | ⟨n, h⟩ <;> simp only [Tree.value] at h <;> subst h
+    · exact Or.inl rfl
+    · exact Or.inr ⟨_, _, rfl⟩
+  rcases hk with ⟨hk, rfl⟩ | hk <;> rcases hval with hc | ⟨n, a, hc⟩ <;>
+    simp [canon, hk, hc, Canon.text, Canon.text.textList]
+
+example : textContentStr (.node (.element 2) [.node (.attribute 3 ['v']) []]) = some [] ∧
+    textContentStr (.node (.element 2) [.node (.attribute 3 ['v']) [], .node (.text ['x']) []]) = some ['x'] ∧
+    textContentStr (.node (.element 2) [.node (.text ['x']) [], .node (.comment []) []]) = none ∧
+    textContentStr (.node (.element 2) [.node (.element 3) [.node (.text ['x']) []]]) = none ∧
+    stringValue {} (.node (.element 2) [.node (.element 3) [.node (.text ['x']) []]]) = ['x'] := by decide
+
+example : stringValue {} (.node (.element 2) [.node (.attribute 3 ['v']) [], .node (.text ['x']) []]) = ['x'] :=
+  C13_text_content_string_value {} _ (by decide) (by decide) (Or.inr ⟨2, rfl⟩) _ (by decide)
+
+/-! ### deep_equal on arbitrary (possibly ill-formed) trees -/
+
+/-- Without any hypothesis on the trees (children in any order, children below attribute /
+    namespace nodes, repeated attribute names): `deep_equal` is transitive; it is reflexive and
+    symmetric as soon as no node's attribute view repeats a name (`attrViewsNodup`, implied by
+    `valid`). -/
+theorem C13_equiv_all_trees :
+    (∀ a b c : Tree, deepEqual a b = true → deepEqual b c = true → deepEqual a c = true) ∧
+    (∀ a : Tree, a.attrViewsNodup = true → deepEqual a a = true) ∧
+    (∀ a b : Tree, a.attrViewsNodup = true → b.attrViewsNodup = true → deepEqual a b = deepEqual b a) ∧
+    (∀ a : Tree, a.valid = true → a.attrViewsNodup = true) :=
+  ⟨deepEqual_trans_all, deepEqual_refl_all, deepEqual_symm_all, attrViewsNodup_of_valid⟩
+
+/-- The hypothesis cannot be dropped: with a repeated attribute name (`<e n3="v" n3="w"/>`, which
+    no parse or `attributes_mut` insertion produces) `deep_equal(a, a)` is false, and
+    `deep_equal(<e n3="x" n3="x"/>, <e n3="x" n4="y"/>)` is true one way and false the other. -/
+theorem C13_equiv_all_trees_needs_unique_names :
+    ¬ (∀ a : Tree, deepEqual a a = true) ∧ ¬ (∀ a b : Tree, deepEqual a b = deepEqual b a) := by
+  refine ⟨fun h => ?_, fun h => ?_⟩
+  · exact absurd (h (.node (.element 2) [.node (.attribute 3 ['v']) [], .node (.attribute 3 ['w']) []])) (by decide)
+  · exact absurd (h (.node (.element 2) [.node (.attribute 3 ['x']) [], .node (.attribute 3 ['x']) []])
+      (.node (.element 2) [.node (.attribute 3 ['x']) [], .node (.attribute 4 ['y']) []])) (by decide)
+
+/-- Non-vacuity: an ill-ordered tree (attribute after text, child under an attribute node) that is
+    not `valid` but satisfies `attrViewsNodup`. -/
+example : (Tree.node (.element 2) [.node (.text ['x']) [], .node (.attribute 3 ['v']) [.node (.comment []) []]]).valid = false ∧
+    deepEqual (.node (.element 2) [.node (.text ['x']) [], .node (.attribute 3 ['v']) [.node (.comment []) []]])
+      (.node (.element 2) [.node (.text ['x']) [], .node (.attribute 3 ['v']) [.node (.comment []) []]]) = true :=
+  ⟨by decide, C13_equiv_all_trees.2.1 _ (by decide)⟩
+
+/-! ### Expanded names as strings (tie to C08) -/
+
+/-- With the interning tables duplicate-free (the C08 invariant `Env.DupFree`; `Env.dupFree_of_inv`
+    derives it from `Interner.Inv`) and all ids of the two trees ids of this `Xot`: `deep_equal`
+    holds exactly when the canonical forms with every name resolved to its (namespace URI, local
+    name) strings are equal. -/
+theorem C13_expanded_names (e : Env) (hd : e.DupFree) (a b : Tree) (va : a.valid = true) (vb : b.valid = true)
+    (ia : a.idsIn e = true) (ib : b.idsIn e = true) :
+    deepEqual a b = true ↔ canonStr e a = canonStr e b :=
+  (C13_iff a b va vb).trans (canon_eq_iff_canonStr_eq hd ia ib)
+
+/-- Names alone: ids in range are equal exactly when the expanded names are. -/
+theorem C13_expanded_name_ids (e : Env) (hd : e.DupFree) (n m : Nat) (hn : n < e.names.length)
+    (hm : m < e.names.length) : n = m ↔ e.expanded n = e.expanded m :=
+  ⟨fun h => h ▸ rfl, Env.expanded_inj hd hn hm⟩
+
+/-- Non-vacuity (`envEx`: a duplicate-free table with the local name `a` in two namespaces).
+    Same local name `a`, attributes in either order: equal over strings; the same local name in
+    another namespace (`{u}a`): different. -/
+example : deepEqual (.node (.element 1) [.node (.attribute 2 ['v']) [], .node (.attribute 0 []) []])
+    (.node (.element 1) [.node (.attribute 0 []) [], .node (.attribute 2 ['v']) []]) = true :=
+  (C13_expanded_names envEx envEx_dupFree _ _ (by decide) (by decide) (by decide) (by decide)).mpr rfl
+
+example : envEx.expanded 0 = ([], ['a']) ∧ envEx.expanded 1 = (['u'], ['a']) ∧
+    ¬ canonStr envEx (.node (.element 0) []) = canonStr envEx (.node (.element 1) []) := by
+  refine ⟨rfl, rfl, fun h => ?_⟩
+  have := (C13_expanded_names envEx envEx_dupFree (.node (.element 0) []) (.node (.element 1) [])
+    (by decide) (by decide) (by decide) (by decide)).mpr h
+  exact absurd this (by decide)
 
 end XotModel.Props
